@@ -18,3 +18,9 @@ claim("C09", "proof",
       "For every request type that can be constructed and all 64 open-flag sets: mutating sink reachable in the handling cone => the gate classifies the request not-read-only; the gate dominates handlePacket, answers EPERM (mapped to PERMISSION_DENIED) and does not refuse reading requests. Finite and exhaustive over the extracted tables; together sufficient for the property modulo the trusted base.",
       "Trusted: sink classification (anything in os/syscall/ioutil/x-sys not on the reading allowlist is mutating), VTA call graph, OS semantics of a plain O_RDONLY open, option fixed at construction.",
       "DESIGN.md section 4, C09")
+
+claim("C11", "other",
+      "locksets, who-may-call/who-may-write, dominance of lookup results, ownership (must-consume) path rule on SSA",
+      "Decides, for every path of the handle-table code of both servers: counter increments only under the lock and handles derive from it; tables accessed only under their lock; lookup results used only under ok with EBADF on the miss path; the closed set of close sites with delete-then-close on one locked path; failed opens release their handle; every object obtained from a handler or from openfile is stored in a handle or closed on every non-error path; transfer-error/context-cancel wiring; sweeps after the worker join on every return path. Necessary structural conditions, not an execution.",
+      "Assumes handler objects do not close themselves and package os releases descriptors on Close; lock idiom is Lock/RLock + deferred unlock (the only idiom in the repository).",
+      "DESIGN.md section 4, C11")
